@@ -76,13 +76,16 @@ func solveStructure(cmd *cobra.Command, args []string) {
 		preStructure = preprocessStructure(structure, options)
 
 		if solvePreprocessToFile {
+			// The file is created before anything is solved: if it can't be created, the
+			// command fails without leaving a solution file behind.
+			preFile := inkio.CreateFile(outPath + inkio.PreFileExt)
+
 			preFileDone.Add(1)
 			go (func() {
 				defer preFileDone.Done()
+				defer preFile.Close()
 				verifWriterGate()
-				file := inkio.CreateFile(outPath + inkio.PreFileExt)
-				defer file.Close()
-				iopre.Write(preStructure, file)
+				iopre.Write(preStructure, preFile)
 				verifWriterDone()
 			})()
 			verifMainAfterSpawn()
